@@ -7,7 +7,7 @@ FIELDS = ['dop', 'ibgp', 'local_asn', 'bgp_id', 'peer', 'origin', 'path', 'local
 LATTICE = {
     'dop': [None, 0, 100, 200],                      # an explicit degree of preference of 0 is not the same content as none
     'ibgp': [0, 1],
-    'local_asn': [100],
+    'local_asn': [100, 100, 200],      # a route without a neighbour AS counts as coming from its own local AS: two local ASes
     'bgp_id': [1, 2, 0x01000002, 0x02000001],          # multi-octet identifiers: the octets order as a big-endian number
     # ::ffff:0.0.0.1 / ::ffff:0.0.0.2 are the IPv4-mapped forms of the first two: distinct addresses (every IPv4 address orders
     # before every IPv6 address) that canonicalising code would merge
